@@ -1,8 +1,139 @@
-"""C14 - engine K (Kani) harnesses, see harness/src/c14.rs and engine_k/harnesses.json"""
+"""C14 - engine K (Kani) harnesses, see harness/src/c14.rs and engine_k/harnesses.json, plus an engine M obligation on the
+order in which the final hop wraps its fulfil attribution data (C14.m)"""
+import re
+import z3
+from engine_m import exec as X
+from engine_m.session import Binding
 from engine_k import runner as K
 
-EVIDENCE = dict(assumptions=['kernel only (narrow): AttributionData array layout (shift_left/shift_right/hold times/HMAC slots); onion construction and peeling, HMAC/ChaCha/ECDH and failure-code attribution are cryptographic or 1300-byte-buffer bound and outside the claim'])
+EVIDENCE = dict(assumptions=['kernel only (narrow): AttributionData array layout (shift_left/shift_right/hold times/HMAC slots) (Kani); the order in which the final hop of a payment builds its fulfil attribution data in ChannelManager::claim_payment_internal (region of the claim loop, process_fulfill_attribution_data a recording stub; engine M); onion construction and peeling, HMAC/ChaCha/ECDH and failure-code attribution are cryptographic or 1300-byte-buffer bound and outside the claim'])
 
 
 def run(S):
+    final_hop_attribution(S, S.decls())
     K.run_property(S, 'C14')
+
+
+def phantom_binding(claim):
+    """replay (oracle_tu phantom_fulfill_battery): a payment to a phantom node over a real channel is claimed; the sender
+    must be able to read the attribution data of both hops (the real receiving node and the phantom hop)"""
+    c = claim if z3.is_expr(claim) else X.zbool(claim)
+    return Binding('phantom_fulfill_battery', [z3.IntVal(1)], [z3.If(c, 0, 1)], parse=lambda t: [0 if t[0] == '0' else 1], line_fn=lambda v: '1',
+                   which='oracle_tu', via_solver=True, domain=[(1, 1)], panic=False)
+
+
+def final_hop_attribution(S, D):
+    """C14.m: in the claim loop of claim_payment_internal the recipient creates the fulfil attribution data as the LAST hop:
+    the innermost hop wraps first. For a payment received through a phantom node the phantom hop is the last hop, so the
+    data is created under the phantom shared secret and then processed once more, as the real node, under the secret of
+    the incoming packet - what the sender, unwrapping from the first hop on, expects."""
+    ids = ['C14.m.final_hop_wraps_innermost_first', 'C14.m.witness']
+    if all(S._skip(o) for o in ids):
+        return
+    f = S.fn('claim_payment_internal')
+    E = S.engine(unwind=1)
+    mem = {}
+    calls = lambda rx: [b for b, (bd, t) in f.blocks.items() if t[0] == 'call' and re.search(rx, t[2])]
+    raa = calls(r'Option::<&Arc<.*PendingMPPClaim>>>::map::<(?:\w+::)*RAAMonitorUpdateBlockingAction,')
+    claim = calls(r'ChannelManager::<.*>::claim_funds_from_hop::<')
+    if len(raa) != 1 or len(claim) != 1:
+        raise X.Unsupported('claim_payment_internal: %d raa-blocker maps, %d claim_funds_from_hop calls' % (len(raa), len(claim)))
+    start, stop = f.blocks[raa[0]][1][4], f.blocks[claim[0]][1][4]
+    # the local holding the HTLC being claimed: the one whose .mpp_part.prev_hop the region reads
+    seen, frontier, locs = set(), [start], set()
+    while frontier:
+        b = frontier.pop()
+        if b in seen or b == stop:
+            continue
+        seen.add(b)
+        bd, t = f.blocks[b]
+        for m in re.finditer(r"\('field', \('field', \('local', (\d+)\), 0, '[^']*MppPart'\), 0, '[^']*HTLCPreviousHopData'\)", str(bd) + str(t)):
+            locs.add(int(m.group(1)))
+        if t[0] == 'call' and t[4] is not None:
+            frontier.append(t[4])
+        elif t[0] == 'goto':
+            frontier.append(t[1])
+        elif t[0] == 'switch':
+            frontier.extend(list(t[2].values()) + ([t[3]] if t[3] is not None else []))
+        elif t[0] in ('drop', 'assert'):
+            frontier.append(t[-1])
+    if len(locs) != 1:
+        raise X.Unsupported('claim_payment_internal: HTLC local of the claim loop: %r' % (locs,))
+    CH, MP, PH = D.struct_fields('ClaimableHTLC'), D.struct_fields('MppPart'), D.struct_fields('HTLCPreviousHopData')
+    has_phantom = z3.Bool('htlc.received_through_phantom_node')
+    prev = X.Adt('HTLCPreviousHopData', {PH.index('phantom_shared_secret'): X.En('Option', z3.If(has_phantom, 1, 0), {1: [X.Adt('SharedSecretBytes', {}, base='phantom_shared_secret')]}),
+                                         PH.index('incoming_packet_shared_secret'): X.Adt('SharedSecretBytes', {}, base='incoming_packet_shared_secret')}, base='prev_hop')
+    htlc = X.Adt('ClaimableHTLC', {CH.index('mpp_part'): X.Adt('MppPart', {MP.index('prev_hop'): prev}, base='mpp_part')}, base='htlc')
+    made, claimed = [], []
+
+    def secret_of(E_, v, mem_):
+        while isinstance(v, X.Ref):
+            v = E_.read_path(mem_[v.cell], v.path, mem_, True, 'secret')
+        b = getattr(v, 'base', None)
+        if getattr(v, 'alt', None) is not None or b not in ('phantom_shared_secret', 'incoming_packet_shared_secret'):
+            raise X.Unsupported('shared secret handed to process_fulfill_attribution_data: %r' % (v,))
+        return 0 if b == 'phantom_shared_secret' else 1
+
+    def h_process(E_, m, func, argv, guard, mem_, dty, caller):
+        k = len(made)
+        made.append((X.zbool(guard), argv[0], secret_of(E_, argv[1], mem_), argv[2]))
+        return X.Adt('AttributionData', {}, base='attribution%d' % k)
+
+    def h_claim(E_, m, func, argv, guard, mem_, dty, caller):
+        claimed.append((X.zbool(guard), argv[4]))
+        return X.UNIT
+    for rx, h in [
+        (r'^(?:\w+::)*process_fulfill_attribution_data$', h_process),
+        (r'ChannelManager::<.*>::claim_funds_from_hop::<', h_claim),
+        (r'Option<PaymentClaimDetails> as Clone>::clone$', lambda *a: X.Opaque('payment info')),
+    ]:
+        E.models.insert(0, (re.compile(rx), h))
+    runr = X.FnRun(E, f, [X.Opaque('self'), X.Opaque('preimage'), X.Opaque('custom tlvs known')][:len(f.params)], True, mem)
+    E.depth += 1
+    runr.run(start_bb=start, init={list(locs)[0]: htlc}, stop_bbs=(stop,))
+    E.depth -= 1
+    ident = lambda v: z3.Int('ident.' + v.base) if getattr(v, 'base', None) else None
+
+    def data_in(v):          # (is_some, identity of the wrapped data) of an Option<AttributionData> argument
+        if not isinstance(v, X.En):
+            raise X.Unsupported('attribution data argument %r' % (v,))
+        p = v.vs.get(1, [None])[0]
+        return X.zint(v.d) == 1, (ident(p) if p is not None and getattr(p, 'alt', None) is None else None), p
+    # expected: phantom -> call A(None, phantom secret, 0) then call B(Some(A's result), incoming secret, 0); else only B(None, incoming, 0)
+    n_calls = z3.Sum([z3.If(g, 1, 0) for g, *_ in made]) if made else z3.IntVal(0)
+    conj = [n_calls == z3.If(has_phantom, 2, 1)]
+    first_under_phantom = []
+    for k, (g, a0, sec, hold) in enumerate(made):
+        some, idv, p = data_in(a0)
+        conj.append(z3.Implies(g, X.zint(hold.t) == 0))
+        # a call that creates fresh data (None) is the innermost hop's: under the phantom secret iff there is a phantom hop
+        conj.append(z3.Implies(z3.And(g, z3.Not(some)), (sec == 0) == has_phantom if True else True))
+        # a call that wraps existing data is the real node's, under the incoming packet's secret, and only with a phantom hop
+        conj.append(z3.Implies(z3.And(g, some), z3.And(has_phantom, sec == 1)))
+    n_claim = z3.Sum([z3.If(g, 1, 0) for g, v in claimed]) if claimed else z3.IntVal(0)
+    conj.append(n_claim == 1)
+    for g, v in claimed:
+        some, idv, p = data_in(v)
+        conj.append(z3.Implies(g, some))
+    # the data handed to the claim is what the LAST call (under the incoming packet's secret) returned
+    last_ok = []
+    for g, v in claimed:
+        some, idv, p = data_in(v)
+        opts = []
+        for k, (gm, a0, sec, hold) in enumerate(made):
+            if sec == 1 and p is not None:
+                opts.append(z3.And(gm, _same(p, 'attribution%d' % k)))
+        last_ok.append(z3.Implies(g, z3.Or(*opts) if opts else False))
+    S.prove(ids[0], E, [], z3.And(*conj, *last_ok),
+            'claiming an HTLC, the recipient creates the fulfil attribution data as the last hop of the path and wraps outwards: received through a phantom node, the data is created under the phantom hop\'s shared secret and then processed again under the incoming packet\'s shared secret (whose result goes into update_fulfill_htlc); without a phantom hop it is created under the incoming packet\'s secret; the hold time reported is zero',
+            [phantom_binding(z3.BoolVal(False))],
+            bounds='region of claim_payment_internal: the claim-loop body from the RAA-blocker to claim_funds_from_hop, one HTLC with or without a phantom secret; process_fulfill_attribution_data a recording stub')
+    S.witness(ids[1], E, [has_phantom], n_calls == 2)
+    S.validate('C14.m.validate', E, phantom_binding(z3.BoolVal(True)), n=1, extra_vectors=[(1,)])
+
+
+def _same(v, base):
+    if getattr(v, 'alt', None) is not None:
+        c_, a, b = v.alt
+        return z3.If(X.zbool(c_), _same(a, base), _same(b, base))
+    return z3.BoolVal(getattr(v, 'base', None) == base)
